@@ -25,8 +25,14 @@ pub enum XKind {
 #[derive(Clone, Debug, PartialEq, Eq, Serialize, Deserialize)]
 pub enum XOp {
     Cmd { op: u8, args: Vec<u8> },
-    /// `data.len()` is a multiple of `n`
-    Pixels { n: u8, data: Vec<u16> },
+    /// `data.len()` is a multiple of `n`; `inexact`: hand the driver an iterator whose
+    /// size hint has a lower bound of 0 (as `filter`, `from_fn` or a clipping adapter do)
+    Pixels {
+        n: u8,
+        data: Vec<u16>,
+        #[serde(default)]
+        inexact: bool,
+    },
     Repeat { n: u8, pixel: Vec<u16>, count: u32 },
     SetValue { v: u16 },
 }
@@ -135,17 +141,22 @@ impl WordOf for u16 {
     }
 }
 
-fn do_pixels<DI: Interface, const N: usize>(di: &mut DI, data: &[u16]) -> Result<(), DI::Error>
+fn do_pixels<DI: Interface, const N: usize>(di: &mut DI, data: &[u16], inexact: bool) -> Result<(), DI::Error>
 where
     DI::Word: WordOf,
 {
-    di.send_pixels(data.chunks_exact(N).map(|c| {
+    let it = data.chunks_exact(N).map(|c| {
         let mut a = [DI::Word::from_u16(0); N];
         for i in 0..N {
             a[i] = DI::Word::from_u16(c[i]);
         }
         a
-    }))
+    });
+    if inexact {
+        di.send_pixels(it.filter(|_| true))
+    } else {
+        di.send_pixels(it)
+    }
 }
 
 fn do_repeat<DI: Interface, const N: usize>(di: &mut DI, pixel: &[u16], count: u32) -> Result<(), DI::Error>
@@ -165,7 +176,7 @@ where
 {
     let r = match op {
         XOp::Cmd { op, args } => di.send_command(*op, args),
-        XOp::Pixels { n, data } => dispatch_n!(*n, do_pixels, di, data),
+        XOp::Pixels { n, data, inexact } => dispatch_n!(*n, do_pixels, di, data, *inexact),
         XOp::Repeat { n, pixel, count } => dispatch_n!(*n, do_repeat, di, pixel, *count),
         XOp::SetValue { .. } => Ok(()),
     };
@@ -548,7 +559,7 @@ pub fn exec_xcase(c: &XCase) -> XOutcome {
                         }
                     }
                 }
-                (XOp::Pixels { n, data }, XKind::Spi { buf }) => {
+                (XOp::Pixels { n, data, .. }, XKind::Spi { buf }) => {
                     let cap = buf as u64 / *n as u64;
                     let px = data.len() as u64 / *n as u64;
                     if cap > 0 && px > 0 && px % cap == 0 {
@@ -723,7 +734,7 @@ pub fn exec_xcase(c: &XCase) -> XOutcome {
 
 fn brief(op: &XOp) -> String {
     match op {
-        XOp::Pixels { n, data } => format!("send_pixels::<{}>({} pixels)", n, data.len() / *n as usize),
+        XOp::Pixels { n, data, .. } => format!("send_pixels::<{}>({} pixels)", n, data.len() / *n as usize),
         XOp::Cmd { op, args } => format!("send_command({:#04x}, {} args)", op, args.len()),
         XOp::Repeat { n, pixel, count } => format!("send_repeated_pixel::<{}>({:x?}, {})", n, pixel, count),
         XOp::SetValue { v } => format!("set_value({:#x})", v),
@@ -803,7 +814,7 @@ pub fn gen_xcase(rng: &mut Rng, prop: &str, seed: u64, with_faults: bool, thorou
                         let p: &Vec<u16> = rng.pick(&pal[..]);
                         data.extend_from_slice(p);
                     }
-                    ops.push(XOp::Pixels { n, data });
+                    ops.push(XOp::Pixels { n, data, inexact: rng.coin() });
                 }
             }
         }
@@ -848,7 +859,7 @@ pub fn gen_xcase(rng: &mut Rng, prop: &str, seed: u64, with_faults: bool, thorou
                                 v
                             })
                             .collect();
-                        ops.push(XOp::Pixels { n, data });
+                        ops.push(XOp::Pixels { n, data, inexact: rng.coin() });
                     }
                     _ => {
                         let mut pixel: Vec<u16> = Vec::new();
